@@ -2022,6 +2022,13 @@ def _add_frame_priority(frame, weight=None, depends_on=None, exclusive=None):
             "Stream %d may not depend on itself" % frame.stream_id
         )
 
+    # The stream dependency is a 31-bit stream identifier.
+    if depends_on is not None and not (0 <= depends_on <= 2**31 - 1):
+        raise ProtocolError(
+            "Stream dependency must be between 0 and 2**31-1, not %d" %
+            depends_on
+        )
+
     # Weight must be between 1 and 256.
     if weight is not None:
         if weight > 256 or weight < 1:
